@@ -30,6 +30,28 @@ func (c *Ctx) hasGuard(n ast.Node, val bool, pred func(ast.Expr) bool) bool {
 	return false
 }
 
+// GuardsDeep returns the branch facts known at n, including those known at the
+// position of every enclosing function literal in its parent function (the
+// literal is created on that path; captured variables are assumed not to be
+// reassigned afterwards).
+func (c *Ctx) GuardsDeep(n ast.Node) []Guard {
+	var res []Guard
+	for cur := n; cur != nil; {
+		fn := c.EnclosingFunc(cur)
+		if fn == nil {
+			break
+		}
+		if g := c.CFG(fn); g != nil {
+			res = append(res, g.Guards(cur)...)
+		}
+		if _, isLit := fn.(*ast.FuncLit); !isLit {
+			break
+		}
+		cur = fn
+	}
+	return res
+}
+
 // optimizerMethods returns the methods of all types in funcGen that implement
 // parser2.Optimizer.
 func (c *Ctx) optimizerMethods() ([]*ast.FuncDecl, *packages.Package) {
@@ -333,6 +355,13 @@ func ruleR023(c *Ctx) {
 				key := fmt.Sprintf("%s#purity-of:%s", gname, nodeStr(c.Fset, as.Lhs[0]))
 				c.Violation(key, as.Pos(), "the purity result of generating %s is discarded", nodeStr(c.Fset, as.Lhs[0]))
 				return true
+			}
+			if loop := enclosingLoop(c, as, gi.decl); loop != nil {
+				if pobj := info.ObjectOf(pid); pobj != nil && (pobj.Pos() < loop.Pos() || pobj.Pos() > loop.End()) {
+					key := fmt.Sprintf("%s#purity-of:%s", gname, nodeStr(c.Fset, as.Lhs[0]))
+					c.Violation(key, as.Pos(), "inside a loop the purity result is assigned directly to %s, which lives outside the loop: every iteration overwrites the purity of the previous sub expressions instead of conjoining them (only the last one counts)", pid.Name)
+					return true
+				}
 			}
 			sites = append(sites, site{as: as, pure: info.ObjectOf(pid), name: pid.Name})
 			return true
